@@ -37,7 +37,7 @@ LEVEL = "exploration"
 RULE = (
     "seeded generator of connected, already-simplified networks (classes graph, hyper, dense incidence, "
     "star, ring/chain; 3-6 tensors in quick, 3-7 in thorough; hyper indices, output indices on several "
-    "tensors; size patterns mixed 2-5 / all-2 / {2,5} / {2,3}); generator rejects anything violating the "
+    "tensors; size patterns mixed 2-5 / all-2 / {2,5} / {2,3} / a few with size-1 dims); generator rejects anything violating the "
     "statement's preconditions.  Per network: ALL (2n-3)!! trees evaluated by E2, then objectives "
     "{flops,size,write,max,combo[-k],limit[-k], k in 1,2,64,256} x search_outer x cost_cap in "
     "{2, optimum, optimum-1, 10^6} x entry point {optimize_optimal (use_ssa, simplify both ways), "
@@ -136,7 +136,7 @@ def precondition_violation(inputs, output, size_dict):
 #                               generator                                     #
 # --------------------------------------------------------------------------- #
 
-SIZE_MODES = ("mixed", "mixed", "mixed", "all2", "two_five", "two_three")
+SIZE_MODES = ("mixed", "mixed", "mixed", "mixed", "all2", "two_five", "two_three", "two_three", "with_ones")
 
 
 def _assign_sizes(rng, indices, mode):
@@ -146,6 +146,8 @@ def _assign_sizes(rng, indices, mode):
         return {ix: rng.choice((2, 5)) for ix in indices}
     if mode == "two_three":
         return {ix: rng.choice((2, 3)) for ix in indices}
+    if mode == "with_ones":  # size-1 dimensions are not excluded by the statement
+        return {ix: rng.choice((1, 2, 2, 3, 4)) for ix in indices}
     return {ix: rng.randint(2, 5) for ix in indices}
 
 
@@ -587,7 +589,7 @@ def run_network(rep, net, cs, tier):
                     "search_outer": outer,
                     "cost_cap": cap,
                     "entry": entry,
-                    "use_ssa": rng.random() < 0.5,
+                    "use_ssa": (rng.random() < 0.5) if entry == "fn" else None,
                     "simplify": rng.random() < 0.7,
                     "case_seed": cs,
                 }
